@@ -240,6 +240,7 @@ PROPS = {
                 technique="postcondition of LocalBioFilter.valid against the window predicate + bounded exhaustive short strings"),
     "C13": dict(title="Vertex indices are k-mers, arcs are shift-append", level="proof", bounded=["C13"], design="8/C13",
                 proof=["dsw.graphized.obtain_latters", "dsw.graphized.obtain_formers", "dsw.graphized.get_complete_accessor",
+                       "dsw.graphized.latter_map_to_accessor#any-order",
                        "dsw.operation.dna_to_number#int", "dsw.operation.number_to_dna#int",
                        "harness.c13_latter_is_shift_append", "harness.c13_former_is_shift_prepend", "harness.c13_successor_of_predecessor",
                        "harness.c13_predecessor_of_successor", "harness.c16_number_dna_back", "harness.c16_dna_roundtrip_int",
@@ -248,7 +249,10 @@ PROPS = {
                 explanation="Contracts on the real obtain_latters / obtain_formers (successor j = (v mod 4^(k-1))*4 + j, predecessor f = v div 4 + "
                             "f*4^(k-1), all in range) and get_complete_accessor (column j of every row holds the j-th successor); the string-level "
                             "statement (drop first nucleotide + append / drop last + prepend, on k-mers of every length) and the predecessor/"
-                            "successor duality are client harnesses over those contracts and the integer paths of dna_to_number / number_to_dna.",
+                            "successor duality are client harnesses over those contracts and the integer paths of dna_to_number / number_to_dna.  "
+                            "latter_map_to_accessor on ANY caller-built latter map (keys in any insertion order, lists of shift successors in any order, "
+                            "repetitions allowed): column j of row v holds the j-th shift successor exactly when v is a key listing it, -1 otherwise - "
+                            "the column is decided by the successor's last nucleotide, never by its position in the list.",
                 claim="Deductive: all obligations discharged for every k >= 1 and every vertex (symbolic 4^k), no bound. The clause 'every graph the "
                       "library builds or converts holds -1 or that successor' is the is_accessor postcondition of the builders, decided under C11/C03/C14.",
                 note="Trusted: pyvc's encoding (DESIGN 2), numpy ones/indexing contracts for get_complete_accessor, codes_of definition; "
@@ -256,6 +260,7 @@ PROPS = {
                 technique="postconditions of obtain_latters/obtain_formers (modular arithmetic VCs) + k-mer shift lemmas + bounded exhaustive small k"),
     "C14": dict(title="The three graph representations are interchangeable", level="proof", bounded=["C14"], design="8/C14",
                 proof=["dsw.graphized.obtain_vertices", "dsw.graphized.accessor_to_latter_map", "dsw.graphized.latter_map_to_accessor#plain",
+                       "dsw.graphized.latter_map_to_accessor#any-order",
                        "harness.c14_roundtrip_latter_map", "dsw.graphized.accessor_to_adjacency_matrix", "dsw.graphized.adjacency_matrix_to_accessor",
                        "harness.c14_roundtrip_matrix", "dsw.graphized.obtain_leaf_vertices#accessor", "dsw.graphized.obtain_leaf_vertices#latter-map",
                        "harness.c14_leaf_queries_agree", "dsw.graphized.obtain_latters", "lemma.fm_ext", "lemma.ipow_mono"],
